@@ -12,6 +12,16 @@ mod c29;
 
 fn main() {
     let args = parse_args();
+    // Panics inside Lance / DataFusion are caught by the checks (catch_unwind) and judged there;
+    // keep stderr readable: print one line per panic, the full message only for harness code.
+    std::panic::set_hook(Box::new(|info| {
+        let loc = info.location().map(|l| format!("{}:{}", l.file(), l.line())).unwrap_or_default();
+        if loc.contains("e_query/") || loc.contains("vmon/") {
+            eprintln!("HARNESS-PANIC at {loc}: {info}");
+        } else if std::env::var("VERIF_SHOW_PANICS").is_ok() {
+            eprintln!("panic (captured) at {loc}");
+        }
+    }));
     let code = match args.prop.as_str() {
         "C12" => c12::run(&args),
         "C16" => c16::run(&args),
